@@ -165,14 +165,23 @@ std::shared_ptr<Bytes> recorded_version(const Sandbox& sb, const Content& c, con
 	return sb.versions.get(c.maps[f.map_idx].name, f.sub, f.size, f.mtime_sec, f.mtime_nsec);
 }
 
-bool recorded_block(const Sandbox& sb, const Content& c, const CFile& f, uint32_t bi, Bytes& out)
+bool recorded_block(const Sandbox& sb, const Content& c, const CFile& f, uint32_t bi, Bytes& out, bool prev, bool* matched)
 {
-	auto v = recorded_version(sb, c, f);
-	if (!v) return false;
+	const auto* vs = sb.versions.all(c.maps[f.map_idx].name, f.sub, f.size, f.mtime_sec, f.mtime_nsec);
+	if (matched) *matched = false;
+	if (!vs || vs->empty()) return false;
 	uint64_t b = (uint64_t)bi * c.block_size;
-	if (b > v->size()) return false;
-	out.assign(*v, b, std::min<uint64_t>(c.block_size, v->size() - b));
-	return true;
+	bool have = false;
+	for (auto& v : *vs) {
+		if (b > v->size()) continue;
+		Bytes blk(*v, b, std::min<uint64_t>(c.block_size, v->size() - b));
+		if (!have) { out = blk; have = true; }
+		if (bi < f.blocks.size() && f.blocks[bi].state != BS_CHG) {
+			Bytes h = ref_hash(c, blk, prev);
+			if (!h.empty() && h == f.blocks[bi].hash) { out = blk; if (matched) *matched = true; return true; }
+		}
+	}
+	return have;
 }
 
 Bytes ref_hash(const Content& c, const Bytes& block, bool prev)
@@ -218,10 +227,12 @@ ParityReport parity_ok(const Sandbox& sb, const Content& c, bool check_hashes)
 					continue;
 				}
 				bool rehash = c.info[pos].present && c.info[pos].rehash;
+				bool matched = false;
+				recorded_block(sb, c, f, b.block_idx, blk, rehash, &matched);
 				Bytes h = ref_hash(c, blk, rehash);
 				++r.blocks_hashed;
 				// a REP block carries an inherited, not yet verified hash: only BLK must match
-				if (b.state == BS_BLK && !h.empty() && h != f.blocks[b.block_idx].hash)
+				if (b.state == BS_BLK && !h.empty() && !matched)
 					r.hash_problems.push_back(strf("pos %u disk %s file %s block %u: recorded hash %s != reference %s", pos, c.maps[f.map_idx].name.c_str(), f.sub.c_str(), b.block_idx,
 						hex(f.blocks[b.block_idx].hash.data(), f.blocks[b.block_idx].hash.size()).c_str(), hex(h.data(), h.size()).c_str()));
 			}
@@ -234,7 +245,7 @@ ParityReport parity_ok(const Sandbox& sb, const Content& c, bool check_hashes)
 		for (auto& b : st) {
 			const CFile& f = c.files[b.file_idx];
 			Bytes blk;
-			if (!recorded_block(sb, c, f, b.block_idx, blk)) {
+			if (!recorded_block(sb, c, f, b.block_idx, blk, c.info[pos].present && c.info[pos].rehash)) {
 				known = false;
 				std::string k = c.maps[f.map_idx].name + ":" + f.sub;
 				if (unknown_seen.insert(k).second)
